@@ -388,13 +388,37 @@ func classifyA(c CaseA) core.Class {
 		}
 		for i := range b.Blocks {
 			bs := &b.Blocks[i]
-			cl.Labels = append(cl.Labels, fmt.Sprintf("block:%s/%d", bs.Kind, bs.NLabels))
+			cl.Labels = append(cl.Labels, fmt.Sprintf("block:%s", bs.Kind), fmt.Sprintf("labels=%d", bs.NLabels))
 			if bs.Body != nil {
 				walk(bs.Body, d+1)
 			}
 		}
 	}
 	walk(&c.Schema, 0)
+	// sibling blocks of one type that share all labels but the last
+	var sib func(b *cfggen.BodyI)
+	sib = func(b *cfggen.BodyI) {
+		groups := map[string]map[string]bool{}
+		nl := map[string]int{}
+		for i := range b.Blocks {
+			bl := &b.Blocks[i]
+			if n := len(bl.Labels); n > 0 {
+				k := fmt.Sprintf("%s|%q", bl.Type, bl.Labels[:n-1])
+				if groups[k] == nil {
+					groups[k] = map[string]bool{}
+				}
+				groups[k][bl.Labels[n-1]] = true
+				nl[k] = n
+			}
+			sib(&bl.Body)
+		}
+		for k, g := range groups {
+			if len(g) >= 2 {
+				cl.Labels = append(cl.Labels, fmt.Sprintf("siblings-sharing-prefix=%d", len(g)), fmt.Sprintf("siblings-sharing-prefix:labels=%d", nl[k]))
+			}
+		}
+	}
+	sib(&c.Inst)
 	cl.Labels = append(cl.Labels, fmt.Sprintf("nesting:%d", maxDepth))
 	rl := repeatedOrLabelled(&c.Inst)
 	cl.NonTrivial = rl && maxRw >= 2
@@ -416,7 +440,7 @@ func classifyA(c CaseA) core.Class {
 func TestC19a(t *testing.T) {
 	core.Run(t, core.Spec[CaseA]{
 		Property: "C19", Sub: "a",
-		Rule: "generated hcldec spec / gohcl struct type (attributes: string number bool list set map object tuple any; blocks: single list set map(1-2 labels) tuple object attrs, 0-2 labels, nesting<=3) + conforming or single-fault instance, rendered as plain native text (reference) and 2-5 forms composing: JSON syntax (own emitter from json/spec.md), shuffled items, comments/odd whitespace/CRLF, hclwrite.Format, k-way split merged with hcl.MergeFiles (attributes in exactly one file, per-type block order kept), runs of blocks folded into dynamic blocks (tuple/object/variable for_each, labels, custom iterator, nested, inherited iterator) expanded with dynblock.Expand. Oracle: every form agrees with the reference on has-errors and on the decoded value for hcldec.Decode and gohcl.DecodeBody, and the reference of a conforming instance decodes to the instance. Non-trivial: >=1 repeated or labelled block and a form composing >=2 rewrites; distinct = (valid/faulty, nesting>=2, widest rewrite combination of the case)",
+		Rule: "generated hcldec spec / gohcl struct type (attributes: string number bool list set map object tuple any; blocks: single list set tuple with 0-8 labels (BlockLabelSpec / label fields), map and object-map with 1-8 LabelNames, attrs; up to 4 sibling blocks that often share a label prefix (typically all but the last label); nesting<=3) + conforming or single-fault instance, rendered as plain native text (reference) and 2-5 forms composing: JSON syntax (own emitter from json/spec.md), shuffled items, comments/odd whitespace/CRLF, hclwrite.Format, k-way split merged with hcl.MergeFiles (attributes in exactly one file, per-type block order kept), runs of blocks folded into dynamic blocks (tuple/object/variable for_each, labels, custom iterator, nested, inherited iterator) expanded with dynblock.Expand. Oracle: every form agrees with the reference on has-errors and on the decoded value for hcldec.Decode and gohcl.DecodeBody, and the reference of a conforming instance decodes to the instance. Non-trivial: >=1 repeated or labelled block and a form composing >=2 rewrites; distinct = (valid/faulty, nesting>=2, widest rewrite combination of the case)",
 		Gen:  genA, Check: checkA, Classify: classifyA,
 		Assumptions: []string{
 			"go-cty (conversion, number parsing, set ordering) is the trusted base of the expected values",
